@@ -16,7 +16,8 @@ STYLE5 = """Look away from the most obvious function. Prefer changes in helper p
 STYLE6 = """Write the change a maintainer would really make on a working day, and let it carry one of the defects such work typically carries in Go: a shadowed variable (`:=` inside an `if`), a captured loop variable, a slice or map shared where a copy was meant, reliance on map iteration order, seconds vs milliseconds vs time.Duration, nil vs empty (string, slice, map, proto message), `defer` in a loop or in the wrong order, an error that is logged but not returned (or returned but its wrapped sentinel lost for errors.Is), a context that is cancelled too early or never, an off-by-one at a boundary (`<` vs `<=`, `len-1`), a cache / pool / batch that is keyed, invalidated or reset one field short, an early `return` / `continue` that skips the clean-up below it, a default that applies when a value is explicitly zero. Dress it as a performance optimisation, an API clean-up, a small feature behind configuration, a dependency-driven rewrite or a robustness fix. It must only show under a SPECIFIC combination (configuration shape x input x order of events), never on the plain happy path, and it must not re-use a mechanism from the list above."""
 STYLE7 = """Make the defect depend on SCALE or DEPTH along a dimension the property quantifies over: it shows only after several repetitions (the 4th refresh of one session, the 3rd login in one browser, the 10th session in the store, the 2nd or 3rd rotation or reload, the 5th chain or filter), with larger-than-usual but realistic values (a URL, cookie header or token of a few KiB, a Cookie header with a dozen cookies, a dozen filters or chains, limits of hours or days instead of seconds, an expiry far in the future, a duration that is not a whole number of seconds, times near a unit boundary), or after a long quiet period. It must be realistic for production yet beyond what a quick test with two or three steps and tiny values touches. Keep thresholds modest (single digits to low dozens of steps or items, KiB not MiB, hours or days not years) and give the change a plausible motivation (a bounded cache or buffer, a retry or refresh budget, a batch size, a counter, a pre-sized slice, a pooled object, an integer conversion). Do not re-use a mechanism from the list above."""
 STYLE8 = """Clause coverage. Read the property statement as a list of separate clauses (main clause, every 'and', every subordinate clause, every exception, every 'never'/'always'/'exactly', the quantifier at the end). Compare with the earlier submissions above and pick, for A and for B, two DIFFERENT clauses that those submissions have touched least or not at all - preferably secondary ones that are easy to forget (an attribute in a list, a 'when configured', an 'unless', the behaviour on an error path that the statement spells out, a 'for every ... and for no other', an 'including ...'). Break exactly that clause and nothing else: everything the other clauses promise must keep working, so that a checker which only verifies the headline of the property stays green. Name the clause you broke (quote it) in meta.json under "clause". Do not re-use a mechanism from the list above."""
-STYLE = STYLE8 if rnd >= "8" else STYLE7 if rnd >= "7" else STYLE6 if rnd >= "6" else (STYLE5 if rnd >= "5" else STYLE4)
+STYLE9 = """Quantifier coverage. The quantifier text at the end of the property enumerates dimensions (stores, token forwarding, discovery, cookie prefix, logout, scopes, trigger rules, timeouts, provider behaviours, event kinds, settings ...). Pick TWO or THREE of those dimensions and make the defect appear only for ONE specific combination of their values, AND only after a specific SEQUENCE of at least four different steps in one history (for example: login, logout, second login in the same browser, token refresh; or write, clear, expire, re-create; or load, rotate, load another setting, rotate back). The change should look like ordinary state handling: a flag that is set once, a field cached on first use, an object reused for the next request, an 'already done' shortcut, a clean-up that runs in one branch only. Every shorter history and every other combination must behave exactly as before. Say which combination and which sequence in meta.json under "needs_to_manifest". Do not re-use a mechanism from the list above."""
+STYLE = STYLE9 if rnd >= "9" else STYLE8 if rnd >= "8" else STYLE7 if rnd >= "7" else STYLE6 if rnd >= "6" else (STYLE5 if rnd >= "5" else STYLE4)
 for pid in props:
     p = P[pid]
     out = "/tmp/out%s-%s" % (rnd, pid)
